@@ -158,4 +158,43 @@ theorem checkS0_iff : ∀ (l : List PD) (cur : Int), checkS0 cur l = true ↔
       simp only [List.getElem_cons_succ, List.take_succ_cons, List.map_cons, List.sum_cons] at this
       rw [this]; omega
 
+theorem foldl_add_sum (l : List Nat) (a : Nat) : l.foldl (· + ·) a = a + l.sum := by
+  induction l generalizing a with
+  | nil => simp
+  | cons x xs ih => simp [ih]; omega
+
+/-- `np.concatenate` of slabs `cart (P ++ X :: Q)` along the cut axis is the slab of the joined axis. -/
+theorem npConcat_slabs (pre post : List Nat) (P Q : List (List Nat)) (hP : P.map List.length = pre)
+    (hQ : Q.map List.length = post) (g : Nat → Nat) (X0 : List Nat) (Xr : List (List Nat)) :
+    npConcat ((X0 :: Xr).map fun X => (pre ++ [X.length] ++ post, (cart (P ++ X :: Q)).map g)) (post.length + 1) =
+      .ok (pre ++ [((X0 :: Xr).map List.length).sum] ++ post, (cart (P ++ (X0 :: Xr).flatten :: Q)).map g) := by
+  have hblk : ∀ X : List Nat, blocks (prod (X.length :: post)) (prod pre) ((cart (P ++ X :: Q)).map g) =
+      (cart P).map fun o => ((cart (X :: Q)).map (o + ·)).map g := by
+    intro X
+    rw [cart_append, List.map_flatMap]
+    have hlen : (cart P).length = prod pre := by rw [cart_length, hP]
+    rw [← hlen]
+    apply blocks_flatMap
+    intro o _
+    simp only [List.length_map, cart_length, List.map_cons, hQ]
+  have hax : ∀ m : Nat, (pre ++ [m] ++ post).drop pre.length = m :: post := by intro m; simp
+  have ht : ∀ m : Nat, (pre ++ [m] ++ post).take pre.length = pre := by intro m; simp
+  have hd1 : ∀ m : Nat, (pre ++ [m] ++ post).drop (pre.length + 1) = post := by
+    intro m; rw [List.append_assoc, List.drop_append]; simp
+  have hg : ∀ m : Nat, (pre ++ [m] ++ post).getD pre.length 0 = m := by intro m; simp
+  have e1 : (pre ++ [X0.length] ++ post).length - (post.length + 1) = pre.length := by simp
+  have e0 : ¬ ((pre ++ [X0.length] ++ post).length < post.length + 1) := by simp
+  simp only [npConcat, List.map_cons, e0, ↓reduceIte, e1, ht, hd1, hax, hg, List.all_cons, List.all_map, List.map_map,
+    Function.comp_def, hblk, foldl_add_sum]
+  rw [if_neg (by simp)]
+  have hlenP : prod pre = (cart P).length := by rw [cart_length, hP]
+  have hint := interleave_map (X0 :: Xr) (cart P) (fun X o => List.map (fun x => g (o + x)) (cart (X :: Q)))
+  simp only [List.map_cons] at hint
+  simp only [hlenP, hint, Nat.zero_add]
+  congr 2
+  rw [cart_append, List.map_flatMap]
+  congr 1; funext o
+  rw [← List.flatMap_id, cart_flatMap_axis, List.map_flatMap, List.map_flatMap]
+  simp [Function.comp_def]
+
 end Psi.PData
